@@ -10,7 +10,7 @@ one token (`Tok.dcl`; the declarators are `DeclParser.lean`) and a constant expr
 | `tag`     | `Parser::parseTagTypeSpecifier_AtFirst`: keyword, optional tag, optional `{` body `}` |
 | `members` | its member loop with `Parser::parseStructDeclaration`, `parseSpecifierQualifierList` (basic specifiers), `parseDeclarationOrStructDeclaration_AtFollowOfSpecifiers` (`int ;` is an incomplete declaration) |
 | `mds`     | `Parser::parseStructDeclaration_AtDeclarator` with the two bit-field branches of `Parser::parseDeclarator` (`m : 3`, `: 3`) |
-| `enums`   | the same loop with `Parser::parseEnumerator`: each enumerator takes its own comma |
+| `enums`   | the same loop with `Parser::parseEnumerator`: each enumerator takes its own comma; one without is the last |
 
 A body that does not parse cleanly is `none` (the C++ reports a diagnostic and recovers).  Only `members` needs a fuel (one unit per member).
 -/
@@ -95,26 +95,21 @@ def members : Nat → List Tok → Option (List M × List Tok)
       | none => none
     | none => none
 
-/-- the same loop with `parseEnumerator`, up to and including the `}` -/
+/-- the same loop with `parseEnumerator`, up to and including the `}`: an enumerator takes its own comma; one without a comma is the
+last of its list -/
 def enums : List Tok → Option (List En × List Tok)
   | .rb :: r => some ([], r)
   | .id n :: .eq :: .e v :: .comma :: r =>
     match enums r with
     | some (es, r') => some (⟨n, some v, true⟩ :: es, r')
     | none => none
-  | .id n :: .eq :: .e v :: r =>
-    match enums r with
-    | some (es, r') => some (⟨n, some v, false⟩ :: es, r')
-    | none => none
+  | .id n :: .eq :: .e v :: .rb :: r => some ([⟨n, some v, false⟩], r)
   | .id n :: .comma :: r =>
     match enums r with
     | some (es, r') => some (⟨n, none, true⟩ :: es, r')
     | none => none
-  | .id n :: r =>
-    match enums r with
-    | some (es, r') => some (⟨n, none, false⟩ :: es, r')
-    | none => none
-  | _ => none                                     -- ExpectedFIRSTofEnumerationConstant
+  | .id n :: .rb :: r => some ([⟨n, none, false⟩], r)
+  | _ => none                                     -- ExpectedFIRSTofEnumerationConstant / expected `,` or `}`
 
 /-- `parseTagTypeSpecifier_AtFirst` -/
 def tag (fuel : Nat) : List Tok → Option (T × List Tok)
@@ -171,15 +166,16 @@ def pp : T → List Tok
 def accM : M → Bool
   | .incomplete ss => !ss.isEmpty
   | .field ss ds => !ss.isEmpty && !ds.isEmpty
-def acc : T → Bool
-  | .su _ ms => ms.all accM
-  | _ => true
-
 /-- the enumerators are separated by commas (the last one may have one too): 6.7.2.2 -/
 def sepd : List En → Bool
   | [] => true
   | [_] => true
   | x :: y :: xs => x.comma && sepd (y :: xs)
+
+def acc : T → Bool
+  | .su _ ms => ms.all accM
+  | .en _ es => sepd es
+  | _ => true
 
 /-- derivable from 6.7.2.1 / 6.7.2.2: additionally, the body is not empty and enumerators are separated by commas -/
 def ok : T → Bool
